@@ -36,6 +36,19 @@ def handle : List String → String
       let sorted := picked.foldl (fun acc x => insertSorted x acc) []
       s!"picked={".".intercalate (sorted.map toString)} out={showOut out}"
     | _, _, _, _ => "bad-op"
+  -- `cfg <targets> <subset|-> <concurrent> <r>`: the servers (dot-separated ids, sorted) that receive one query of a
+  -- forward built by `NewForward` from entries whose own options designate `targets`, through all of them or a tag subset
+  | ["cfg", ts, sub, c, r] =>
+    let nats (s : String) : Option (List Nat) := (s.splitOn ".").mapM (·.toNat?)
+    match nats ts, (if sub == "-" then some none else (nats sub).map some), c.toInt?, r.toNat? with
+    | some ts, some sub, some c, some r =>
+      match build (Gen.Facts.c14UpstreamPerEntry.getD false && Gen.Facts.c14EntryOptions.getD false) ts with
+      | none => "servers=unknown"   -- the source no longer builds one upstream per entry from its own options
+      | some u =>
+        let got := contacted (Gen.Facts.c14MaxConcurrent.getD 0) (inUse u sub) c r
+        let sorted := got.foldl (fun acc x => insertSorted x acc) []
+        s!"servers={".".intercalate (sorted.map toString)}"
+    | _, _, _, _ => "bad-op"
   | _ => "bad-op"
 
 end Driver.C14
